@@ -398,6 +398,13 @@ type LoopSpec struct {
 	Stable     []*Clause // proved on entry, ASSUMED to survive the loop (ownership arguments the verifier cannot make)
 }
 
+// WireLayout: the fields a message struct puts on the wire, in order, for the protocol versions Lo..Hi ("Name type").
+type WireLayout struct {
+	Lo, Hi int
+	Fields []string
+	Line   int
+}
+
 type ParamDecl struct {
 	Name string
 	Type string
@@ -439,6 +446,7 @@ type Contract struct {
 	CallSiteEns  map[string][]*Clause // callee name -> facts assumed after each call in this function (trusted)
 	CallSiteMods map[string][]*Clause // callee name -> locations havocked at each call in this function (trusted)
 	Cancellable []*Clause           // func block: channels one of which every blocking wait of the function also waits on
+	Layouts    []WireLayout         // wire block: the field sequence of a message struct per protocol version
 	CloseOnly  []string             // type block: channel fields that are never sent on, only closed
 	FieldWrite map[string][]*Clause // type block: two-state obligations on every store to a field (self, was, now)
 	AssumeAt   []*Clause            // trusted facts assumed right after the statement whose source line contains Label
@@ -455,11 +463,11 @@ type ContractFile struct {
 }
 
 var clauseKeywords = map[string]bool{
-	"func": true, "spec": true, "lemma": true, "type": true, "lock": true, "functype": true, "iface": true,
+	"func": true, "spec": true, "lemma": true, "type": true, "lock": true, "functype": true, "iface": true, "wire": true,
 	"property": true, "mode": true, "requires": true, "ensures": true, "modifies": true, "reads": true,
 	"loop": true, "assert": true, "pure": true, "inline": true, "trusted": true, "unproved": true,
 	"assume": true, "option": true, "expect": true, "def": true, "unfold": true, "macro": true, "guards": true,
-	"invariant": true, "rely": true, "ghost": true, "replay": true, "package": true, "end": true, "ghostfield": true, "let": true, "callsite": true, "closeonly": true, "fieldwrite": true, "cancellable": true, "lockassume": true, "ghostdef": true, "assumeat": true, "trust-ensures": true,
+	"invariant": true, "rely": true, "ghost": true, "replay": true, "package": true, "end": true, "ghostfield": true, "let": true, "callsite": true, "closeonly": true, "fieldwrite": true, "layout": true, "cancellable": true, "lockassume": true, "ghostdef": true, "assumeat": true, "trust-ensures": true,
 }
 
 func firstWord(s string) (string, string) {
@@ -588,7 +596,7 @@ func ParseContractFile(path string, pkg string) (*ContractFile, error) {
 		case "end":
 			cur = nil
 			continue
-		case "func", "spec", "lemma", "type", "lock", "functype", "iface":
+		case "func", "spec", "lemma", "type", "lock", "functype", "iface", "wire":
 			cur = &Contract{Kind: w, Pkg: pkg, Props: append([]string(nil), curProps...), Loops: map[string]*LoopSpec{}, Unproved: map[string]string{}, Options: map[string]string{}, File: path, Line: l.line, Unfold: 1}
 			if w == "spec" || w == "lemma" {
 				// spec name(p1 T1, p2 T2) R
@@ -674,6 +682,23 @@ func ParseContractFile(path string, pkg string) (*ContractFile, error) {
 			}
 			cl.Label = r[1 : j+1]
 			cur.AssumeAt = append(cur.AssumeAt, cl)
+		case "layout":
+			// layout v0..v1 Name type, Name type, ...   (wire block)
+			vr, r2 := firstWord(rest)
+			var lo, hi int
+			if _, err := fmt.Sscanf(vr, "v%d..v%d", &lo, &hi); err != nil {
+				if _, err2 := fmt.Sscanf(vr, "v%d", &lo); err2 != nil {
+					return nil, fail("layout v<lo>[..v<hi>] Field type, ...")
+				}
+				hi = lo
+			}
+			var fs []string
+			for _, f := range strings.Split(r2, ",") {
+				if f = strings.Join(strings.Fields(f), " "); f != "" {
+					fs = append(fs, f)
+				}
+			}
+			cur.Layouts = append(cur.Layouts, WireLayout{Lo: lo, Hi: hi, Fields: fs, Line: l.line})
 		case "cancellable":
 			// cancellable <chan expr> : every blocking channel wait of the function (select, receive, send) can also be ended by
 			// that channel (several clauses: by one of them)
